@@ -11,7 +11,8 @@
 //!
 //! Two further spaces run first (both added after seeded changes were missed): `modifier_bases`/`modifier_mutants`
 //! (writes and out-arguments whose target type carries a modifier besides `const`, crossed with every storage kind
-//! that makes the target non-writable and every access path) and `init_list_shapes`/`init_list_operands` (brace
+//! that makes the target non-writable - including `const` that comes with a typedef name while the other modifiers are
+//! written at the use site -, every type class - numeric, enum, struct, array - and every access path) and `init_list_shapes`/`init_list_operands` (brace
 //! initialisers: every list shape / operand kind against a reference model of the two readings of an initialiser list).
 //!
 //! Signatures: `ir|...` (see ir_typecheck.rs), `illtyped-accepted|<family>|<class>`, `panic|<file>|<message>`
@@ -973,21 +974,22 @@ fn gen_misc(idx: u64) -> Case {
 // ---------------------------------------------------------------------------------------------
 // negative side: base programs and typed mutations
 
-const NEG_PRELUDE: &str = "struct S { int m_i; float m_f; int2 m_i2; float3 m_f3; bool m_b; uint m_u; int arr[2]; };
-struct T2 { int m_i; float m_f; int2 m_i2; float3 m_f3; bool m_b; uint m_u; int arr[2]; };
-enum E { EA, EB };
-cbuffer CB { int cb_i; float cb_f; int2 cb_i2; float3 cb_f3; bool cb_b; uint cb_u; S cb_s; }
-static const int gc_i = 1; static const float gc_f = 1.0; static const int2 gc_i2 = int2(1, 2); static const float3 gc_f3 = float3(1, 2, 3); static const bool gc_b = true; static const uint gc_u = 1u; static const S gc_s;
-int ge_i; float ge_f; int2 ge_i2; float3 ge_f3; bool ge_b; uint ge_u; S ge_s; T2 ge_t; int ge_a[2]; float2 ge_f2;
+const NEG_PRELUDE: &str = "enum E { EA, EB };
+struct S { int m_i; float m_f; int2 m_i2; float3 m_f3; bool m_b; uint m_u; int arr[2]; E m_e; };
+struct T2 { int m_i; float m_f; int2 m_i2; float3 m_f3; bool m_b; uint m_u; int arr[2]; E m_e; };
+cbuffer CB { int cb_i; float cb_f; int2 cb_i2; float3 cb_f3; bool cb_b; uint cb_u; S cb_s; E cb_e; }
+static const int gc_i = 1; static const float gc_f = 1.0; static const int2 gc_i2 = int2(1, 2); static const float3 gc_f3 = float3(1, 2, 3); static const bool gc_b = true; static const uint gc_u = 1u; static const S gc_s; static const E gc_e = EA;
+int ge_i; float ge_f; int2 ge_i2; float3 ge_f3; bool ge_b; uint ge_u; S ge_s; T2 ge_t; int ge_a[2]; float2 ge_f2; E ge_e;
+typedef const int CT_i; typedef const float CT_f; typedef const int2 CT_i2; typedef const float3 CT_f3; typedef const bool CT_b; typedef const uint CT_u; typedef const E CT_e;
 groupshared uint gsh_u; groupshared int gsh_i;
 Texture2D<float4> o_tex; Buffer<float4> o_buf;
-int h_i(); float h_f(); int2 h_i2(); float3 h_f3(); bool h_b(); uint h_u(); S h_s(); int3 h_i3(); bool3 h_b3(); uint3 h_u3(); int4 h_i4(); float4 h_f4();
-void fi_i(int p); void fi_f(float p); void fi_i2(int2 p); void fi_f3(float3 p); void fi_b(bool p); void fi_u(uint p);
-void fo_i(out int p); void fo_f(out float p); void fo_i2(out int2 p); void fo_f3(out float3 p); void fo_b(out bool p); void fo_u(out uint p);
-void fio_i(inout int p); void fio_f(inout float p); void fio_i2(inout int2 p); void fio_f3(inout float3 p); void fio_b(inout bool p); void fio_u(inout uint p);
-void f2o_i(int a, out int p); void f2o_f(float a, out float p); void f2o_i2(int2 a, out int2 p); void f2o_f3(float3 a, out float3 p); void f2o_b(bool a, out bool p); void f2o_u(uint a, out uint p);
-void f2io_i(inout int p, int a); void f2io_f(inout float p, float a); void f2io_i2(inout int2 p, int2 a); void f2io_f3(inout float3 p, float3 a); void f2io_b(inout bool p, bool a); void f2io_u(inout uint p, uint a);
-struct MO { int d; void mo_i(out int p) { p = 1; } void mo_f(out float p) { p = 1; } void mo_i2(out int2 p) { p = 1; } void mo_f3(out float3 p) { p = 1; } void mo_b(out bool p) { p = true; } void mo_u(out uint p) { p = 1; } void mio_i(inout int p) { } void mio_f(inout float p) { } void mio_i2(inout int2 p) { } void mio_f3(inout float3 p) { } void mio_b(inout bool p) { } void mio_u(inout uint p) { } void m0() { } void m1(int a) { } void m2(int a, float b) { } void mg_i(int x) { } void mg_f3(float3 x) { } void mg_s(S x) { } void mg_a(int x[2]) { } void mg_t(T2 x) { } };
+int h_i(); float h_f(); int2 h_i2(); float3 h_f3(); bool h_b(); uint h_u(); S h_s(); int3 h_i3(); bool3 h_b3(); uint3 h_u3(); int4 h_i4(); float4 h_f4(); E h_e();
+void fi_i(int p); void fi_f(float p); void fi_i2(int2 p); void fi_f3(float3 p); void fi_b(bool p); void fi_u(uint p); void fi_e(E p);
+void fo_i(out int p); void fo_f(out float p); void fo_i2(out int2 p); void fo_f3(out float3 p); void fo_b(out bool p); void fo_u(out uint p); void fo_e(out E p);
+void fio_i(inout int p); void fio_f(inout float p); void fio_i2(inout int2 p); void fio_f3(inout float3 p); void fio_b(inout bool p); void fio_u(inout uint p); void fio_e(inout E p);
+void f2o_i(int a, out int p); void f2o_f(float a, out float p); void f2o_i2(int2 a, out int2 p); void f2o_f3(float3 a, out float3 p); void f2o_b(bool a, out bool p); void f2o_u(uint a, out uint p); void f2o_e(E a, out E p);
+void f2io_i(inout int p, int a); void f2io_f(inout float p, float a); void f2io_i2(inout int2 p, int2 a); void f2io_f3(inout float3 p, float3 a); void f2io_b(inout bool p, bool a); void f2io_u(inout uint p, uint a); void f2io_e(inout E p, E a);
+struct MO { int d; void mo_i(out int p) { p = 1; } void mo_f(out float p) { p = 1; } void mo_i2(out int2 p) { p = 1; } void mo_f3(out float3 p) { p = 1; } void mo_b(out bool p) { p = true; } void mo_u(out uint p) { p = 1; } void mo_e(out E p) { p = EA; } void mio_i(inout int p) { } void mio_f(inout float p) { } void mio_i2(inout int2 p) { } void mio_f3(inout float3 p) { } void mio_b(inout bool p) { } void mio_u(inout uint p) { } void mio_e(inout E p) { } void m0() { } void m1(int a) { } void m2(int a, float b) { } void mg_i(int x) { } void mg_f3(float3 x) { } void mg_s(S x) { } void mg_a(int x[2]) { } void mg_t(T2 x) { } };
 void nf0(); void nf1(int a); void nf2(int a, float b); void nf3(int a, float b, bool c); void nfd(int a, float b = 1.5); void nfdd(int a, float b = 1.5, bool c = true); void nov(int a); void nov(int a, float b);
 void g1_i(int x); void g1o_i(out int x); void g1io_i(inout int x); void g2a_i(int x, int y); void g2b_i(int y, int x); void g3_i(int y, int x, float z); void gd_i(int y, int x, float z = 1.5); void gov_i(int x); void gov_i(int x, int y);
 void g1_f3(float3 x); void g1o_f3(out float3 x); void g1io_f3(inout float3 x); void g2a_f3(float3 x, int y); void g2b_f3(int y, float3 x); void g3_f3(int y, float3 x, float z); void gd_f3(int y, float3 x, float z = 1.5); void gov_f3(float3 x); void gov_f3(float3 x, int y);
@@ -1010,9 +1012,14 @@ struct NegCase {
     standalone: bool,
     /// appended to the signature of a panic on this case (context class; empty for the shared-prelude families)
     tag: String,
+    /// the same program with the injected statement replaced by a neutral one (empty: not available). A mutant whose
+    /// declarations alone are rejected is outside the negative space; a panic that the declarations alone reproduce
+    /// gets the context class `declaration`.
+    decl_only: std::sync::Arc<str>,
 }
 
 const EXPECT_WRITE: &[&str] = &["LvalueRequired", "MutableRequired", "UnaryOperationWrongTypes"];
+const EXPECT_WRITE_ARRAY: &[&str] = &["LvalueRequired", "MutableRequired", "UnaryOperationWrongTypes", "BinaryOperationWrongTypes"];
 const EXPECT_CALL: &[&str] = &["FunctionArgumentTypeMismatch"];
 const EXPECT_RETURN: &[&str] = &["WrongTypeInReturnStatement"];
 const EXPECT_DEFAULT: &[&str] = &["InitializerExpressionWrongType", "FunctionArgumentTypeMismatch", "WrongTypeInReturnStatement", "BinaryOperationWrongTypes"];
@@ -1025,13 +1032,15 @@ struct NType {
     lit: Option<&'static str>,
 }
 
-static NTYPES: [NType; 6] = [
+static NTYPES: [NType; 7] = [
     NType { name: "int", tag: "i", other: "float", init: "1", lit: Some("7") },
     NType { name: "float", tag: "f", other: "int", init: "1.0", lit: Some("1.5") },
     NType { name: "int2", tag: "i2", other: "float2", init: "int2(1, 2)", lit: None },
     NType { name: "float3", tag: "f3", other: "int3", init: "float3(1, 2, 3)", lit: None },
     NType { name: "bool", tag: "b", other: "int", init: "true", lit: Some("true") },
     NType { name: "uint", tag: "u", other: "int", init: "1u", lit: Some("7u") },
+    // a type without a scalar kind (added after a seeded change that skipped the const test of ++/-- for enums was missed)
+    NType { name: "E", tag: "e", other: "int", init: "EA", lit: None },
 ];
 
 /// local declarations shared by the write / out-argument programs of one operand type
@@ -1043,6 +1052,11 @@ fn ndecls(t: &NType) -> String {
         I = t.init,
         O = t.other
     );
+    // const that comes with a typedef name, alone and with a further modifier at the use site
+    s.push_str(&format!("CT_{g} ctl = {I}; volatile CT_{g} vctl = {I}; ", g = t.tag, I = t.init));
+    if t.name == "E" {
+        return s;
+    }
     if scalar {
         s.push_str(&format!("const {T}3 cv; {T}3 l3; const {T}2x2 cm; ", T = t.name));
     } else {
@@ -1072,9 +1086,17 @@ fn nonwritable_forms(t: &NType) -> Vec<(&'static str, String)> {
         ("cbuffer-member", format!("cb_s.m_{}", g)),
         ("call-result", format!("h_{}()", g)),
         ("cast-result", format!("(({})lo)", t.name)),
-        ("constructor-result", format!("{}(l)", t.name)),
         ("member-of-rvalue", format!("h_s().m_{}", g)),
+        ("const-typedef-local", "ctl".into()),
+        ("const-typedef-local+modifier", "vctl".into()),
     ];
+    if t.name == "E" {
+        // no constructors, vectors or matrices of an enum; arithmetic on enums gives int
+        v.push(("enum-value", "EA".into()));
+        v.push(("postincrement-result", "(l++)".into()));
+        return v;
+    }
+    v.push(("constructor-result", format!("{}(l)", t.name)));
     if t.name == "int" {
         v.push(("member-of-const", "cs.arr[1]".into()));
         v.push(("enum-value", "EA".into()));
@@ -1146,10 +1168,10 @@ fn neg_cases() -> Vec<NegCase> {
     let mut out: Vec<NegCase> = Vec::new();
     let mut push_group = |out: &mut Vec<NegCase>, family: &'static str, expect: &'static [&'static str], base_text: &dyn Fn(usize) -> String, muts: Vec<(String, String, Box<dyn Fn(usize) -> String>)>| {
         let bi = out.len();
-        out.push(NegCase { family, class: "base".into(), what: "base program".into(), base: usize::MAX, text: base_text(bi), expect, standalone: false, tag: String::new() });
+        out.push(NegCase { family, class: "base".into(), what: "base program".into(), base: usize::MAX, text: base_text(bi), expect, standalone: false, tag: String::new(), decl_only: "".into() });
         for (class, what, f) in muts {
             let i = out.len();
-            out.push(NegCase { family, class, what, base: bi, text: f(i), expect, standalone: false, tag: String::new() });
+            out.push(NegCase { family, class, what, base: bi, text: f(i), expect, standalone: false, tag: String::new(), decl_only: "".into() });
         }
     };
 
@@ -1457,8 +1479,14 @@ fn mutant_replay_of(family: &str, class: &str, expect: &[&str], tag: &str, src: 
     format!("kind: mutant\nfamily: {}\nclass: {}\nexpect: {}{}\n{}", family, class, expect.join(","), t, src)
 }
 
+/// Does the program with the injected statement replaced by a neutral one (the declarations alone) already panic with
+/// the same signature?
+fn declarations_panic_alike(decl_only: &str, sig: &str) -> bool {
+    !decl_only.is_empty() && matches!(tc(&format!("{}\n", decl_only)), TcOut::Panic(q) if psig(&q) == sig)
+}
+
 /// oracle of the negative side for one mutant
-fn check_mutant(family: &str, class: &str, what: &str, expect: &[&str], src: &str, replay: String, tag: &str, acc: &mut Acc) {
+fn check_mutant(family: &str, class: &str, what: &str, expect: &[&str], src: &str, replay: String, tag: &str, decl_only: &str, acc: &mut Acc) {
     acc.count("type_checks");
     match tc(src) {
         TcOut::Ok(_) => {
@@ -1470,6 +1498,15 @@ fn check_mutant(family: &str, class: &str, what: &str, expect: &[&str], src: &st
             });
         }
         TcOut::Rej { class: ec, msg, .. } => {
+            if !expect.contains(&ec.as_str()) && !decl_only.is_empty() {
+                // the declarations alone are refused: the case carries no injected violation that could be judged
+                if let TcOut::Rej { class: dc, .. } = tc(&format!("{}\n", decl_only)) {
+                    if dc == ec {
+                        acc.count(&format!("mutants_not_applicable_declaration_rejected|{}|{}", family, ec));
+                        return;
+                    }
+                }
+            }
             acc.count("mutants_rejected");
             acc.count(&format!("mutants_rejected|{}|{}", family, ec));
             acc.outcome(&(family, class, ec.as_str()));
@@ -1484,7 +1521,16 @@ fn check_mutant(family: &str, class: &str, what: &str, expect: &[&str], src: &st
         TcOut::ParseErr(msg) => acc.violation(Violation { signature: format!("machinery|generated-mutant-does-not-parse|{}", family), detail: format!("{}: {}", what, one_line(&msg, 300)), replay }),
         TcOut::Panic(p) => {
             acc.count("panicked");
-            acc.violation(Violation { signature: tagged(psig(&p), tag), detail: format!("type_check panicked ({}) on a mutant: {}", one_line(&p.message, 200), what), replay });
+            let sig = psig(&p);
+            if declarations_panic_alike(decl_only, &sig) {
+                acc.violation(Violation {
+                    signature: tagged(sig, "declaration"),
+                    detail: format!("type_check panicked ({}) on the declarations of a mutant: {} :: {}", one_line(&p.message, 200), what, one_line(decl_only, 300)),
+                    replay: mutant_replay_of(family, class, expect, "declaration", &format!("{}\n", decl_only)),
+                });
+            } else {
+                acc.violation(Violation { signature: tagged(sig, tag), detail: format!("type_check panicked ({}) on a mutant: {}", one_line(&p.message, 200), what), replay });
+            }
         }
     }
 }
@@ -1500,13 +1546,13 @@ fn check_mutant(family: &str, class: &str, what: &str, expect: &[&str], src: &st
 /// (class, global declarations, parameter, local declarations, target expression) with `{M}` modifiers, `{T}` type
 struct StorageKind {
     class: &'static str,
-    /// 'g' extern/static global, 'l' local, 'p' parameter, 'r' resource element
+    /// 'g' extern/static global, 'l' local, 'p' parameter, 'r' resource element, 't' typedef, 'm' struct member
     site: char,
     ro: (&'static str, &'static str, &'static str, &'static str),
     rw: (&'static str, &'static str, &'static str, &'static str),
 }
 
-const STORAGE_KINDS: [StorageKind; 16] = [
+const STORAGE_KINDS: [StorageKind; 31] = [
     StorageKind { class: "extern-global", site: 'g', ro: ("{M} {T} w;", "", "", "w"), rw: ("static {M} {T} w;", "", "", "w") },
     StorageKind { class: "extern-global", site: 'g', ro: ("extern {M} {T} w;", "", "", "w"), rw: ("static {M} {T} w;", "", "", "w") },
     StorageKind { class: "extern-global", site: 'g', ro: ("typedef {M} {T} TD; TD w;", "", "", "w"), rw: ("typedef {M} {T} TD; static TD w;", "", "", "w") },
@@ -1523,21 +1569,63 @@ const STORAGE_KINDS: [StorageKind; 16] = [
     StorageKind { class: "read-only-resource-element", site: 'r', ro: ("Texture2D<{M} {T}> w;", "", "", "w.mips[0][uint2(0, 0)]"), rw: ("RWTexture2D<{M} {T}> w;", "", "", "w[uint2(0, 0)]") },
     StorageKind { class: "read-only-resource-element", site: 'r', ro: ("Texture2DArray<{M} {T}> w;", "", "", "w.mips[0][uint3(0, 0, 0)]"), rw: ("RWTexture2DArray<{M} {T}> w;", "", "", "w[uint3(0, 0, 0)]") },
     StorageKind { class: "read-only-resource-element", site: 'r', ro: ("Texture3D<{M} {T}> w;", "", "", "w.mips[0][uint3(0, 0, 0)]"), rw: ("RWTexture3D<{M} {T}> w;", "", "", "w[uint3(0, 0, 0)]") },
+    // `const` that comes with a named type while the declaration using the name adds the other modifiers (added after a
+    // seeded change that dropped the modifiers of the named type whenever the use site had modifiers of its own was
+    // missed): {origin of const: typedef, typedef of a typedef, typedef that also carries volatile} x {site of the use:
+    // local, static local, parameter (only / middle / inout), second typedef, static / groupshared global,
+    // element type of a writable resource, struct member}
+    StorageKind { class: "const-typedef-local", site: 'l', ro: ("typedef const {T} TD;", "", "{M} TD w;", "w"), rw: ("typedef {T} TD;", "", "{M} TD w;", "w") },
+    StorageKind { class: "const-typedef-local", site: 'l', ro: ("typedef const {T} TD0; typedef TD0 TD;", "", "{M} TD w;", "w"), rw: ("typedef {T} TD0; typedef TD0 TD;", "", "{M} TD w;", "w") },
+    StorageKind { class: "const-typedef-local", site: 't', ro: ("typedef const {T} TD0; typedef {M} TD0 TD;", "", "TD w;", "w"), rw: ("typedef {T} TD0; typedef {M} TD0 TD;", "", "TD w;", "w") },
+    StorageKind { class: "const-typedef-local", site: 'l', ro: ("typedef const volatile {T} TD;", "", "{M} TD w;", "w"), rw: ("typedef volatile {T} TD;", "", "{M} TD w;", "w") },
+    StorageKind { class: "const-typedef-local", site: 'l', ro: ("typedef const {T} TD;", "", "static {M} TD w;", "w"), rw: ("typedef {T} TD;", "", "static {M} TD w;", "w") },
+    StorageKind { class: "const-typedef-param", site: 'p', ro: ("typedef const {T} TD;", "{M} TD w", "", "w"), rw: ("typedef {T} TD;", "{M} TD w", "", "w") },
+    StorageKind { class: "const-typedef-param", site: 'p', ro: ("typedef const {T} TD;", "inout {M} TD w", "", "w"), rw: ("typedef {T} TD;", "inout {M} TD w", "", "w") },
+    StorageKind { class: "const-typedef-param", site: 'p', ro: ("typedef const {T} TD;", "int a, {M} TD w, int b", "", "w"), rw: ("typedef {T} TD;", "int a, {M} TD w, int b", "", "w") },
+    StorageKind { class: "const-typedef-global", site: 'g', ro: ("typedef const {T} TD; static {M} TD w;", "", "", "w"), rw: ("typedef {T} TD; static {M} TD w;", "", "", "w") },
+    StorageKind { class: "const-typedef-global", site: 'g', ro: ("typedef const {T} TD; groupshared {M} TD w;", "", "", "w"), rw: ("typedef {T} TD; groupshared {M} TD w;", "", "", "w") },
+    StorageKind { class: "const-typedef-resource-element", site: 'r', ro: ("typedef const {T} TD; RWBuffer<{M} TD> w;", "", "", "w[0]"), rw: ("typedef {T} TD; RWBuffer<{M} TD> w;", "", "", "w[0]") },
+    StorageKind { class: "const-typedef-resource-element", site: 'r', ro: ("typedef const {T} TD; RWStructuredBuffer<{M} TD> w;", "", "", "w[0]"), rw: ("typedef {T} TD; RWStructuredBuffer<{M} TD> w;", "", "", "w[0]") },
+    StorageKind { class: "const-typedef-resource-element", site: 'r', ro: ("typedef const {T} TD; RWTexture2D<{M} TD> w;", "", "", "w[uint2(0, 0)]"), rw: ("typedef {T} TD; RWTexture2D<{M} TD> w;", "", "", "w[uint2(0, 0)]") },
+    StorageKind { class: "const-typedef-member", site: 'm', ro: ("typedef const {T} TD; struct SS { int pad; {M} TD m; };", "", "SS w;", "w.m"), rw: ("typedef {T} TD; struct SS { int pad; {M} TD m; };", "", "SS w;", "w.m") },
+    StorageKind { class: "const-typedef-member", site: 'm', ro: ("typedef const {T} TD; struct SS { int pad; {M} TD m; }; static SS w;", "", "", "w.m"), rw: ("typedef {T} TD; struct SS { int pad; {M} TD m; }; static SS w;", "", "", "w.m") },
 ];
 
-/// (type, access paths as (suffix, type of the path)); `float` types take unorm/snorm, matrices also a matrix order
-fn modified_types(quick: bool) -> Vec<(&'static str, Vec<(&'static str, &'static str)>)> {
+/// a target type of the modifier space: `float` types take unorm/snorm, matrices also a matrix order
+struct ModType {
+    name: &'static str,
+    /// definitions the type name needs
+    prelude: &'static str,
+    /// appended to the class of a mutant ("" for numeric types): types without a scalar kind are classes of their own
+    /// (added after a seeded change that skipped the const test of ++/-- for exactly those types was missed)
+    tclass: &'static str,
+    /// access paths as (suffix, type of the path)
+    paths: Vec<(&'static str, &'static str)>,
+}
+
+fn modified_types(quick: bool) -> Vec<ModType> {
+    let mt = |name, paths| ModType { name, prelude: "", tclass: "", paths };
     let mut v = vec![
-        ("float2x2", vec![("", "float2x2"), ("[1]", "float2"), ("[1][0]", "float"), ("._m00", "float"), ("._m00_m11", "float2")]),
-        ("float4", vec![("", "float4"), ("[1]", "float"), (".x", "float"), (".xy", "float2")]),
-        ("float", vec![("", "float")]),
+        mt("float2x2", vec![("", "float2x2"), ("[1]", "float2"), ("[1][0]", "float"), ("._m00", "float"), ("._m00_m11", "float2")]),
+        mt("float4", vec![("", "float4"), ("[1]", "float"), (".x", "float"), (".xy", "float2")]),
+        mt("float", vec![("", "float")]),
+        mt("int", vec![("", "int")]),
+        // types that have no scalar kind: enum, struct (whole value only: a member of a const struct is a recorded
+        // finding of its own), array (through a typedef, so that the declarator keeps the shape `T w`)
+        ModType { name: "E", prelude: "enum E { EA, EB };", tclass: "+enum", paths: vec![("", "E")] },
+        ModType { name: "ST", prelude: "struct ST { float a; int b; };", tclass: "+struct", paths: vec![("", "ST")] },
+        ModType { name: "A2", prelude: "typedef float A2[2];", tclass: "+array", paths: vec![("", "A2"), ("[1]", "float")] },
     ];
     if !quick {
-        v.push(("float4x4", vec![("", "float4x4"), ("[1]", "float4"), ("[1][0]", "float"), ("._m00", "float"), ("._m00_m11", "float2")]));
-        v.push(("float3x2", vec![("", "float3x2"), ("[1]", "float2"), ("[1][0]", "float"), ("._m00", "float"), ("._m00_m11", "float2")]));
-        v.push(("float2", vec![("", "float2"), ("[1]", "float"), (".x", "float"), (".xy", "float2")]));
-        v.push(("int", vec![("", "int")]));
-        v.push(("uint3", vec![("", "uint3"), ("[1]", "uint"), (".x", "uint"), (".xy", "uint2")]));
+        v.push(mt("float4x4", vec![("", "float4x4"), ("[1]", "float4"), ("[1][0]", "float"), ("._m00", "float"), ("._m00_m11", "float2")]));
+        v.push(mt("float3x2", vec![("", "float3x2"), ("[1]", "float2"), ("[1][0]", "float"), ("._m00", "float"), ("._m00_m11", "float2")]));
+        v.push(mt("float2", vec![("", "float2"), ("[1]", "float"), (".x", "float"), (".xy", "float2")]));
+        v.push(mt("uint3", vec![("", "uint3"), ("[1]", "uint"), (".x", "uint"), (".xy", "uint2")]));
+        v.push(mt("uint", vec![("", "uint")]));
+        v.push(mt("bool", vec![("", "bool")]));
+        v.push(mt("half", vec![("", "half")]));
+        v.push(mt("double", vec![("", "double")]));
+        v.push(ModType { name: "AE", prelude: "enum E { EA, EB }; typedef E AE[2];", tclass: "+enum", paths: vec![("[1]", "E")] });
     }
     v
 }
@@ -1556,8 +1644,8 @@ fn modifier_sets(t: &str, site: char, quick: bool) -> Vec<&'static str> {
     if is_matrix && is_float {
         v.extend(["row_major unorm", "snorm row_major", "unorm column_major", "column_major snorm"]);
     }
-    // volatile is only accepted on locals and parameters
-    if site == 'l' || site == 'p' {
+    // volatile is only accepted on locals, parameters and typedefs
+    if site == 'l' || site == 'p' || site == 't' {
         v.push("volatile");
         if !quick && is_matrix {
             v.push("volatile row_major");
@@ -1604,29 +1692,34 @@ const MOD_POSITIONS: [(&str, &str); 10] = [
     ("method", "{G}struct M_{I} { int fld; void meth_{I}({P}) { {D}{W}; } };"),
 ];
 
-fn modifier_cases(quick: bool) -> Vec<NegCase> {
+/// the cases of one statement position (the thorough tier runs position by position to bound the memory held)
+fn modifier_cases(quick: bool, position: usize) -> Vec<NegCase> {
     let mut out: Vec<NegCase> = Vec::new();
     let mut base_index: BTreeMap<String, usize> = BTreeMap::new();
+    let mut decl_cache: BTreeMap<String, std::sync::Arc<str>> = BTreeMap::new();
+    let mut shared = |text: String| -> std::sync::Arc<str> { decl_cache.entry(text.clone()).or_insert_with(|| text.into()).clone() };
     let types = modified_types(quick);
     let ctxs = write_contexts(quick);
-    let npos = if quick { 1 } else { MOD_POSITIONS.len() };
     let squeeze = |s: String| -> String { s.split_whitespace().collect::<Vec<_>>().join(" ") };
-    for (pname, ptpl) in &MOD_POSITIONS[..npos] {
-        for (t, paths) in &types {
+    for (pname, ptpl) in &MOD_POSITIONS[position..position + 1] {
+        for mt in &types {
+            let t = mt.name;
             for sk in STORAGE_KINDS.iter() {
                 for m in modifier_sets(t, sk.site, quick) {
-                    for (suffix, pt) in paths {
+                    for (suffix, pt) in &mt.paths {
                         for (tag, family, helper, stmt) in &ctxs {
-                            let expect: &'static [&'static str] = if *family == "write" { EXPECT_WRITE } else { EXPECT_CALL };
-                            let program = |d: &(&str, &str, &str, &str)| -> String {
+                            // (a whole const array on either side of `=` is refused as an operand type mismatch)
+                            let expect: &'static [&'static str] = if *family != "write" { EXPECT_CALL } else if mt.tclass == "+array" { EXPECT_WRITE_ARRAY } else { EXPECT_WRITE };
+                            // `neutral`: the statement is replaced by one that reads a local (the declarations alone)
+                            let program = |d: &(&str, &str, &str, &str), neutral: bool| -> String {
                                 let sub = |x: &str| x.replace("{M}", m).replace("{T}", t).replace("{PT}", pt);
-                                let w = stmt.replace("{X}", &format!("{}{}", d.3, suffix)).replace("{R}", &format!("l2{}", suffix)).replace("{PT}", pt);
-                                let g = format!("{} {} ", sub(d.0), sub(helper));
+                                let w = if neutral { "li".to_string() } else { stmt.replace("{X}", &format!("{}{}", d.3, suffix)).replace("{R}", &format!("l2{}", suffix)).replace("{PT}", pt) };
+                                let g = format!("{} {} {} ", mt.prelude, sub(d.0), sub(helper));
                                 let locals = format!("{} {} l2; bool lb = true; int li = 1; ", sub(d.2), t);
                                 squeeze(ptpl.replace("{G}", &g).replace("{P}", &sub(d.1)).replace("{D}", &locals).replace("{W}", &w))
                             };
                             let tag_full = if m.is_empty() { tag.to_string() } else { format!("{}+modifier", tag) };
-                            let btpl = program(&sk.rw);
+                            let btpl = program(&sk.rw, false);
                             let bi = match base_index.get(&btpl) {
                                 Some(i) => *i,
                                 None => {
@@ -1641,21 +1734,23 @@ fn modifier_cases(quick: bool) -> Vec<NegCase> {
                                         expect,
                                         standalone: true,
                                         tag: tag_full.clone(),
+                                        decl_only: shared(program(&sk.rw, true).replace("{I}", "0")),
                                     });
                                     i
                                 }
                             };
                             let i = out.len();
-                            let class = if m.is_empty() { sk.class.to_string() } else { format!("{}+modifier", sk.class) };
+                            let class = format!("{}{}{}", sk.class, if m.is_empty() { "" } else { "+modifier" }, mt.tclass);
                             out.push(NegCase {
                                 family,
                                 class,
                                 what: format!("`{}` where the target is declared `{}` (modifiers `{}`, path `{}`), position {}", stmt.replace("{X}", &format!("{}{}", sk.ro.3, suffix)).replace("{R}", &format!("l2{}", suffix)).replace("{PT}", pt), squeeze(format!("{} {} {}", sk.ro.0, sk.ro.1, sk.ro.2).replace("{M}", m).replace("{T}", t)), m, suffix, pname),
                                 base: bi,
-                                text: program(&sk.ro).replace("{I}", &i.to_string()),
+                                text: program(&sk.ro, false).replace("{I}", &i.to_string()),
                                 expect,
                                 standalone: true,
                                 tag: tag_full,
+                                decl_only: shared(program(&sk.ro, true).replace("{I}", "0")),
                             });
                         }
                     }
@@ -2004,7 +2099,7 @@ fn init_eval(pre: &Prelude, space: &str, idx: u64, ic: &InitCase, acc: &mut Acc)
     if let Some(class) = ic.must_reject {
         acc.count("init|must be rejected in both readings");
         let replay = mutant_replay_of("initialiser", class, EXPECT_INIT, "", &src);
-        check_mutant("initialiser", class, &what, EXPECT_INIT, &src, replay, "", acc);
+        check_mutant("initialiser", class, &what, EXPECT_INIT, &src, replay, "", "", acc);
         return;
     }
     acc.count("type_checks");
@@ -2080,11 +2175,20 @@ fn run_neg(ctx: &Ctx, rep: &mut Report, pre: &Prelude, neg: &[NegCase], bases_sp
             }),
             TcOut::Panic(p) => {
                 acc.count("panicked");
-                acc.violation(Violation {
-                    signature: tagged(psig(&p), &c.tag),
-                    detail: format!("type_check panicked ({}) on a base program ({}): {}", one_line(&p.message, 200), c.what, one_line(&c.text, 300)),
-                    replay: unit_replay(&space_line, Some(i as u64), &src),
-                })
+                let sig = psig(&p);
+                if declarations_panic_alike(&c.decl_only, &sig) {
+                    acc.violation(Violation {
+                        signature: tagged(sig, "declaration"),
+                        detail: format!("type_check panicked ({}) on the declarations of a base program ({}): {}", one_line(&p.message, 200), c.what, one_line(&c.decl_only, 300)),
+                        replay: unit_replay(&format!("{};declaration", bases_space), Some(i as u64), &format!("{}\n", c.decl_only)),
+                    })
+                } else {
+                    acc.violation(Violation {
+                        signature: tagged(sig, &c.tag),
+                        detail: format!("type_check panicked ({}) on a base program ({}): {}", one_line(&p.message, 200), c.what, one_line(&c.text, 300)),
+                        replay: unit_replay(&space_line, Some(i as u64), &src),
+                    })
+                }
             }
         }
     });
@@ -2100,7 +2204,7 @@ fn run_neg(ctx: &Ctx, rep: &mut Report, pre: &Prelude, neg: &[NegCase], bases_sp
         acc.count(&format!("mutants|{}", c.family));
         let src = neg_source(c);
         let replay = mutant_replay(c, &src);
-        check_mutant(c.family, &c.class, &c.what, c.expect, &src, replay, &c.tag, acc);
+        check_mutant(c.family, &c.class, &c.what, c.expect, &src, replay, &c.tag, &c.decl_only, acc);
         if k % sample_every == 0 {
             acc.sample(obj(vec![("space", mutants_space.into()), ("family", c.family.into()), ("class", c.class.as_str().into()), ("text", c.text.as_str().into())]));
         }
@@ -2121,10 +2225,17 @@ pub fn run(ctx: &Ctx) -> i32 {
     // cut short by a loaded machine never removes them
     // writes through types with a modifier besides const (negative side)
     if space_selected("modifier_mutants") {
-        let mneg = modifier_cases(quick);
-        rep.cov("cases_modifier_mutants", Json::Int(mneg.iter().filter(|c| c.base != usize::MAX).count() as i64));
-        rep.cov("cases_modifier_bases", Json::Int(mneg.iter().filter(|c| c.base == usize::MAX).count() as i64));
-        run_neg(ctx, &mut rep, &pre, &mneg, "modifier_bases", "modifier_mutants", 2003);
+        let (mut nbases, mut nmutants) = (0i64, 0i64);
+        for position in 0..if quick { 1 } else { MOD_POSITIONS.len() } {
+            let mneg = modifier_cases(quick, position);
+            nmutants += mneg.iter().filter(|c| c.base != usize::MAX).count() as i64;
+            nbases += mneg.iter().filter(|c| c.base == usize::MAX).count() as i64;
+            run_neg(ctx, &mut rep, &pre, &mneg, "modifier_bases", "modifier_mutants", 2003);
+        }
+        rep.cov("cases_modifier_mutants", Json::Int(nmutants));
+        rep.cov("cases_modifier_bases", Json::Int(nbases));
+        rep.cov("space_modifier_bases", Json::Int(nbases));
+        rep.cov("space_modifier_mutants", Json::Int(nmutants));
     } else {
         rep.exhaustive = false;
         rep.caps_hit.push("modifier_mutants: not selected by VERIF_C03_SPACES".into());
@@ -2177,7 +2288,10 @@ pub fn run(ctx: &Ctx) -> i32 {
         "enum operands of arithmetic/bitwise/++ operators count as numeric (the type checker keeps enum-typed operands for unscoped enums)".into(),
         "negative side: a cast to the operand's own type, ?: results, assignment results and pre-increment results are not used as r-value forms (their value category differs between C-like languages)".into(),
         "negative side: writes to cbuffer members and to extern globals are counted as writes to const (HLSL: uniform inputs are read-only; the type checker itself makes extern globals const)".into(),
-        "modified types: the modifiers are row_major / column_major (matrices), unorm / snorm (float types), volatile (locals and parameters only, the type checker refuses it elsewhere) and the pairs order x norm; storage kinds: extern global (plain, `extern`, through a typedef), static const global, const local (both modifier orders, through a typedef), const parameter, element of Buffer / StructuredBuffer / Texture2D / Texture2DArray / Texture3D and of their mips slices; the base of a mutant is the same program with the writable counterpart (static global, plain local / parameter, RW resource) and must be accepted; the quick tier uses the plain statement position only; precise, interpolation and groupshared are outside the space".into(),
+        "modified types: the modifiers are row_major / column_major (matrices), unorm / snorm (float types), volatile (locals and parameters only, the type checker refuses it elsewhere) and the pairs order x norm; storage kinds: extern global (plain, `extern`, through a typedef), static const global, const local (both modifier orders, through a typedef), const parameter, element of Buffer / StructuredBuffer / Texture2D / Texture2DArray / Texture3D and of their mips slices; the base of a mutant is the same program with the writable counterpart (static global, plain local / parameter, RW resource) and must be accepted; the quick tier uses the plain statement position only; precise and interpolation modifiers are outside the space".into(),
+        "modified types, origin of const: besides `const` written on the declaration, `const` may come with a typedef name (plain, through a second typedef, together with volatile) while the other modifiers are written where the name is used: local, static local, parameter (only / middle / inout), a second typedef, static and groupshared global, element type of RWBuffer / RWStructuredBuffer / RWTexture2D, struct member (local and static global object); the writable counterpart is the same program with a typedef without const. A mutant whose declarations alone (the statement replaced by a read of a local) are rejected with the same error is counted as not applicable (the type checker refuses row_major / column_major on a typedef name that carries a modifier); a panic that the declarations alone reproduce is reported once, with the context class `declaration`. `const` in an explicit template type argument is outside the space: the type checker instantiates t<const float> as t<float> by design".into(),
+        "modified types, type classes: numeric types (quick: float2x2, float4, float, int; thorough also float4x4, float3x2, float2, uint3, uint, bool, half, double) and the types without a scalar kind: enum, struct (whole value only; a member of a const struct is a recorded finding), array of float through a typedef (whole value and element; a whole const array on either side of `=` may be refused as BinaryOperationWrongTypes), thorough also element of an array of enum; their mutant classes carry the suffix +enum / +struct / +array".into(),
+        "negative side, operand types of the write / out-argument families: int, float, int2, float3, bool, uint and the enum E (no constructor, vector, matrix or arithmetic forms for the enum); non-writable forms include a local whose const comes with a typedef name, alone and with volatile at the use site".into(),
         "brace initialisers: a rejection is demanded only when the initialiser fits neither the element-wise reading rssl implements (one element per component / element / member, a list for a scalar has exactly one element) nor HLSL's flattening reading (the scalar components of all operands add up to those of the target), and no list is empty; in every other case only the IR of an accepted program is checked, including that no source operand is missing from the elaborated initialiser; operands: int literal, float, float2, one-member struct and SamplerState globals; targets: int, float2, int3, float[2], float2[2], struct {int; float}, struct {that struct; int[2]}, array of 2 structs; matrices and unsized arrays are outside the space".into(),
         "struct templates, geometry/mesh shader objects and pipelines are outside the space".into(),
         "the typer's debug assertions are enabled in this build; a panic inside type_check is reported with its own signature".into(),
@@ -2247,7 +2361,7 @@ fn replay_into(body: &str, acc: &mut Acc, verbose: bool) -> bool {
             let expect: Vec<String> = elist.split(',').map(|s| s.to_string()).collect();
             let src = lines.next().unwrap_or("");
             let ex: Vec<&str> = expect.iter().map(|s| s.as_str()).collect();
-            check_mutant(&family, &class, "replayed mutant", &ex, src, String::new(), tag, acc);
+            check_mutant(&family, &class, "replayed mutant", &ex, src, String::new(), tag, "", acc);
             true
         }
         _ => false,
@@ -2284,7 +2398,7 @@ fn minimise(signature: &str, body: &str) -> String {
     let mut last = all[all.len() - 1].to_string();
     let join = |src: &Vec<String>, last: &str| format!("{}\n{}\n{}\n", header.join("\n"), src.join("\n"), last);
     let is_mutant = header_lines == 4;
-    const DECL_STARTS: [&str; 13] = ["int", "float", "bool ", "bool3 ", "uint", "const ", "S ", "T2 ", "MO ", "half ", "double ", "E ", "static "];
+    const DECL_STARTS: [&str; 15] = ["int", "float", "bool ", "bool3 ", "uint", "const ", "S ", "T2 ", "MO ", "half ", "double ", "E ", "static ", "CT_", "volatile "];
     for _round in 0..2 {
         let mut i = src.len();
         while i > 0 {
